@@ -18,6 +18,10 @@ CTX = [
     ("HashSet", lambda x: ("hset", x)),
     ("map-key", lambda x: ("bmap", x, rg.P("i32"))),
     ("Result-in-tuple", lambda x: ("tuple", [("vec", x), ("opt", x)])),
+    # smart pointers are not in the documented table; whatever the tool prints for them, a schema it reads must already be defined
+    ("Box", lambda x: ("raw", "Box<%s>" % rg.rust(x))),
+    ("Arc-in-Vec", lambda x: ("raw", "Vec<std::sync::Arc<%s>>" % rg.rust(x))),
+    ("Option-Rc", lambda x: ("raw", "Option<Rc<%s>>" % rg.rust(x))),
 ]
 
 
@@ -169,7 +173,7 @@ def run(tier):
     seeds_fixed = [sd * 100 + k for k in range(nseeds - 2)] + [None, None]  # plus two unseeded (OS entropy) processes
     jobs = []
     maxn = 3 if tier == "quick" else 4
-    nctx = 6
+    nctx = 6     # uniform contexts of the exhaustive part; the remaining ones (incl. the smart-pointer spellings) occur in the sampled graphs
     for n in range(1, maxn + 1):
         for edges in all_dags(n):
             if not edges and n > 1:
